@@ -49,13 +49,15 @@ def do_independent(opset, fragment, depth, multiple):
     return ok and state == bstate
 
 
+DEPTH_SHARDS = [('depth0', 'depth == 0'), ('depth1to2', '1 <= depth <= 2'), ('depth3up', '3 <= depth')]
 for opset in OPSETS:
     for fragment in (False, True):
-        define(globals(), 'C12', 'independent_%s%s' % (opset, '_fragment' if fragment else ''), ['depth', 'multiple'],
-               "return do_independent(%r, %r, depth, multiple)" % (opset, fragment), ['0 <= depth and 0 <= multiple'],
+      for shard, dpre in DEPTH_SHARDS:
+        define(globals(), 'C12', 'independent_%s%s_%s' % (opset, '_fragment' if fragment else '', shard), ['depth', 'multiple'],
+               "return do_independent(%r, %r, depth, multiple)" % (opset, fragment), [dpre + ' and 0 <= multiple'],
                tier='quick' if (opset, fragment) in (('reads', False),) else 'thorough',
                timeout=3000, path_timeout=600, drives=CLI_DRIVES, stubs=STUBS,
-               symbolic=['depth: ANY pipelining depth >= 0 (unbounded integer)', 'multiple: ANY Multiple Service Packet size limit >= 0 (unbounded integer)'],
+               symbolic=['depth: ANY pipelining depth with %s (the three shards cover every depth >= 0; unbounded integer)' % dpre, 'multiple: ANY Multiple Service Packet size limit >= 0 (unbounded integer)'],
                bounds='operation list %r (fragment=%r) through the real client over an in-process transport against the real simulator: for every depth '
                       'and every bundle size limit, one result per operation, in order, with the statuses and values of the synchronous un-bundled '
                       'run, and the same final tag state' % (OPSETS[opset], fragment), outside='other operation lists; real TCP scheduling')
@@ -109,10 +111,10 @@ def do_no_mix(multiple, depth, order):
     return ok
 
 
-for _order in (0, 1):
-  define(globals(), 'C12', 'bundles_never_mix_paths_order%d' % _order, ['multiple', 'depth'], "return do_no_mix(multiple, depth, %d)" % _order,
-       ['0 <= multiple and 0 <= depth <= 2'], tier='quick' if _order else 'thorough', timeout=3000, path_timeout=600, drives=CLI_DRIVES, stubs=STUBS,
-       bounds='4 reads (grouped / alternating) between two (route path, send path) pairs, for every bundle size limit and depth 0..2: every frame the peer receives '
+for _order, _depth in ((0, 0), (0, 1), (0, 2), (1, 0), (1, 1), (1, 2)):
+  define(globals(), 'C12', 'bundles_never_mix_paths_order%d_depth%d' % (_order, _depth), ['multiple'], "return do_no_mix(multiple, %d, %d)" % (_depth, _order),
+       ['0 <= multiple'], tier='quick' if _order else 'thorough', timeout=3000, path_timeout=600, drives=CLI_DRIVES, stubs=STUBS,
+       bounds='4 reads (grouped / alternating) between two (route path, send path) pairs, for every bundle size limit (unbounded) at this depth: every frame the peer receives '
               '(decoded by the reference decoder) carries only members of operations that have that frame\'s route path', outside='')
 
 
